@@ -772,12 +772,13 @@ def _apply_solver_cfg(om, model, gobj, cfg):
             s = om.ScipyKrylov(assemble_jac=bool(cfg.get('jac')))
             s.options['atol'] = 1e-14
             s.options['rtol'] = 1e-14
-            s.options['maxiter'] = 500
+            s.options['maxiter'] = 200
+            s.options['iprint'] = -1
             return s
         if kind == 'lbgs':
-            return om.LinearBlockGS(atol=1e-14, rtol=1e-14, maxiter=200)
+            return om.LinearBlockGS(atol=1e-13, rtol=1e-13, maxiter=40, iprint=-1)
         if kind == 'lbjac':
-            return om.LinearBlockJac(atol=1e-14, rtol=1e-14, maxiter=400)
+            return om.LinearBlockJac(atol=1e-13, rtol=1e-13, maxiter=80, iprint=-1)
         if kind == 'runonce':
             return om.LinearRunOnce()
         return None
